@@ -49,13 +49,27 @@ func monitorReady(sc RScenario, o rOutcome) (vs []viol) {
 	}
 	// clause 1: once the initial fetch finishes, every pending call returns
 	if runCalled && replied && !runHeld {
-		if o.NoRequest {
+		if o.NoRequest && runCtx != "" && o.RunRet != "" {
+			// Run has RETURNED without ever asking the issuer (its ctx was done): nothing will signal
+			// readiness any more (a second Run answers "already running"), so a call that is still
+			// waiting waits forever — "never deadlock, whatever the order of first calls"
+			for _, i := range o.Pending {
+				if o.Kinds[i] == "getp" && !released[i] {
+					continue
+				}
+				vs = append(vs, viol{"ready-not-signalled-run-ctx-done", fmt.Sprintf("call %d (%s, own context alive) never returned: Run returned %q without making the initial request and without signalling readiness; Run's own ctx was ended %s: schedule %s",
+					i, o.Kinds[i], o.RunRet, runCtx, sc.String())})
+			}
+		} else if o.NoRequest {
 			vs = append(vs, viol{"getsvid-before-run-deadlock",
 				"Run was called but its initial request never reached the issuer (Run is blocked): schedule " + sc.String()})
 		}
 		for _, i := range o.Pending {
 			if o.Kinds[i] == "getp" && !released[i] {
 				continue // held by the harness at the hook
+			}
+			if o.NoRequest && runCtx != "" && o.RunRet != "" {
+				continue // reported above: there was no initial fetch at all
 			}
 			id := "ready-deadlock"
 			for j := range o.Kinds {
